@@ -824,3 +824,37 @@ def g_getprob(rng, level=0, n_random=120):
         st = _rand_state(rng, N)
         st.r = 0
         yield {'self': st, 'readout': bits(rng, N)}
+
+
+def _rand_poly(rng, N, L):
+    pa, _ = _pc()
+    p = pa.PauliPolynomial(bits(rng, L, 2 * N), rng.integers(0, 4, L).astype(np.int64))
+    p.cs = (rng.normal(size=L) + 1j * rng.normal(size=L)).astype(np.complex128)
+    return p
+
+
+@gen(PA + 'PauliPolynomial.__neg__')
+@gen(PA + 'PauliPolynomial.copy')
+def g_poly1(rng, level=0, n_random=100):
+    for _ in range(n_random):
+        yield {'self': _rand_poly(rng, int(rng.integers(1, 4)), int(rng.integers(0, 5)))}
+
+
+@gen(PA + 'PauliPolynomial.__rmul__')
+def g_poly_rmul(rng, level=0, n_random=100):
+    for _ in range(n_random):
+        yield {'self': _rand_poly(rng, int(rng.integers(1, 4)), int(rng.integers(0, 5))), 'c': complex(rng.normal(), rng.normal())}
+
+
+@gen(CI + 'CliffordGate.independent_from')
+def g_indep(rng, level=0, n_random=200):
+    import pyclifford.circuit as ci
+    tuples = [q for n in range(1, 4) for q in itertools.combinations(range(4), n)]
+    for q1 in tuples:
+        for q2 in tuples:
+            yield {'self': ci.CliffordGate(*q1), 'other_gate': ci.CliffordGate(*q2)}
+    for _ in range(n_random):
+        N = int(rng.integers(2, 9))
+        q1 = tuple(int(x) for x in rng.choice(N, size=int(rng.integers(1, min(N, 4) + 1)), replace=False))
+        q2 = tuple(int(x) for x in rng.choice(N, size=int(rng.integers(1, min(N, 4) + 1)), replace=False))
+        yield {'self': ci.CliffordGate(*q1), 'other_gate': ci.CliffordGate(*q2)}
